@@ -1,3 +1,14 @@
+/-
+  Helper lemmas for Tie/FnEditSort.lean (part A): the inlined generic `removeDups` of `File.SortBlocks` / `WorkFile.SortBlocks`
+  (Generated/FnEdit.lean), list level.
+  * Go maps as association lists: `mapGet_mapSet`; `KillRel km kl` (the `kill` map, keys `*Line` pointers, against the model's
+    list of killed line ids — as a SET: Go inserts into a map, the model concatenates lists), `SeenRel` (a `have…` map against
+    the model's `seen` list);
+  * a typed list as a zipped list of (pointer, model entry) pairs: `ZEnts`, `REntsL.toZip` / `ofZip`, `REnts.filterZip`;
+  * three generic loops with their specifications: `filterLoopG` (= `List.filter`), `seenLoopG` (first wins = the model's
+    `killLater`), `seenBackLoopG` (last wins, downwards = the model's `killEarlier`);
+  * the equations `File_removeDups_loopK = generic loop` for loops 1–6 and 8, `WorkFile_removeDups_loopK` for 1, 2, 4.
+-/
 import ModVerif.Proofs.TieFnEditRep
 set_option linter.unusedSimpArgs false
 set_option linter.unusedVariables false
